@@ -173,3 +173,15 @@ package generator
 //@ loop 3 invariant vs_all(func(j int) bool { return 0 <= j && j < len(oprefs) ==> oprefs[j].Op != nil })
 //@ loop 3 invariant len(operationIDs) == 0 ==> len(operations) == vs_done(3)
 //@ loop 4 invariant taken == vs_has(operations, nm)
+
+// ---- C10: the embedded spec is the input spec ----
+
+//@ func generateReadableSpec
+//@ props C10
+//@ safety
+//@ modifies nothing
+//@ requires vs_validUTF8(string(spec))
+//@ ensures !strings.Contains(string(spec), "`") ==> result == string(spec)
+//@ loop 1 invariant buf != nil && vs_fresh(buf) && 0 <= vs_pos(1) && vs_pos(1) <= len(string(spec))
+//@ loop 1 invariant !strings.Contains(string(spec)[:vs_pos(1)], "`") ==> buf.String() == string(spec)[:vs_pos(1)]
+//@ loop 1 step buf.String() == old(buf.String())+vs_piece(string(spec), old(vs_pos(1)), vs_pos(1), b)
